@@ -120,6 +120,46 @@ func c01edgeChunks(c *Ctx, r *Result) {
 	if ef := expand.Call.StaticCallee(); ef != nil {
 		c01zeroPadding(c, r, ef, "C01.7")
 	}
+	// placement: where a clipped row lands in the nominal-shaped buffer is a function of the NOMINAL extents (and the row
+	// counters), where it is taken from is a function of the CLIPPED extents: the two must not be mixed
+	if ef := expand.Call.StaticCallee(); ef != nil && len(ef.Params) == len(expand.Call.Args) {
+		var actualP, nominalP *ssa.Parameter
+		for i, a := range expand.Call.Args {
+			if valueReadsField(a, "hdf5.DatasetWriter.chunkDims", 0) {
+				nominalP = ef.Params[i]
+			} else if src, isCall := a.(*ssa.Call); isCall && c.calleeName(src) == "writer.ChunkCoordinator.GetChunkSize" {
+				actualP = ef.Params[i]
+			}
+		}
+		placed := 0
+		if actualP != nil && nominalP != nil {
+			for _, site := range callsIn(ef) {
+				call, ok := site.(*ssa.Call)
+				if !ok {
+					continue
+				}
+				if b, isB := call.Call.Value.(*ssa.Builtin); !isB || b.Name() != "copy" {
+					continue
+				}
+				dsl, ok1 := call.Call.Args[0].(*ssa.Slice)
+				ssl, ok2 := call.Call.Args[1].(*ssa.Slice)
+				if !ok1 || !ok2 {
+					continue
+				}
+				if _, fresh := dsl.X.(*ssa.MakeSlice); !fresh {
+					continue
+				}
+				placed++
+				okD := dsl.Low == nil || !dataParams(dsl.Low)[actualP]
+				okS := ssl.Low == nil || !dataParams(ssl.Low)[nominalP]
+				r.Check(okD, "C01.7", c.Name(ef)+"#row-position-from-nominal-extents", c.InstrPos(call), "the destination offset of a row in the expanded chunk is computed from the nominal chunk extents; the clipped extents ("+actualP.Name()+") do not enter it")
+				r.Check(okS, "C01.7", c.Name(ef)+"#row-source-from-clipped-extents", c.InstrPos(call), "the source offset of a row is computed from the clipped extents; the nominal extents ("+nominalP.Name()+") do not enter it")
+			}
+		}
+		if placed == 0 {
+			r.Undec("C01.7", c.Name(ef)+"#row-position-from-nominal-extents", c.Pos(ef.Pos()), "row copy into a fresh nominal-shaped buffer not recognised in the expanding helper")
+		}
+	}
 	// consumers: pipeline.Apply / WriteAtAddress / len() for Allocate and the index receive the expanded value (or the filtered value derived from it)
 	derives := func(v ssa.Value) bool {
 		seen := map[ssa.Value]bool{}
